@@ -125,7 +125,6 @@ Ltac ev' := cbn [is_token is_string is_extension is_literal nth_error N.eqb Pos.
 Section Attr.
 Variables (l : lang) (tb : bytes) (ver cs : N).
 Hypothesis Hcs : cs_ok cs.
-Hypothesis Hwv : typed_wv_agree.
 Hypothesis Hdt : typed_datetime_agree.
 Let env := penv_of l tb ver cs.
 Let denv := mk_denv l tb.
